@@ -1,11 +1,11 @@
 import FsutilModel.DiffInv
 namespace Fsm.D
 
-variable {P : Type} [DecidableEq P]
+variable {P : Type} [DecidableEq P] {I : Type} [DecidableEq I]
 
 /-- generic step that consumes the head of the lower list (skip or delete) -/
-theorem inv_popL {O : PathOrd P} {tU : TMap P} {l : Ent P} {ls us : List (Ent P)} {rm rm' : Option P}
-    {t t' : TMap P} (hi : Inv O tU (l :: ls) us rm t)
+theorem inv_popL {O : PathOrd P} {tU : TMap P I} {l : Ent P I} {ls us : List (Ent P I)} {rm rm' : Option P}
+    {t t' : TMap P I} (hi : Inv O tU (l :: ls) us rm t)
     (hlt : ∀ u ∈ us, O.lt l.path u.path = true)
     (ha : ∀ q, O.lt q l.path = true → t' q = t q)
     (hb : t' l.path = none)
